@@ -228,7 +228,7 @@ def run(ctx):
     # ---------------------------------------------------------------- R3 units
     for q in ('Recipe.get_container_flows', 'Recipe.get_amount_remaining'):
         sc = targets.scan(ctx, q)
-        uscan.report_sinks(ctx, lambda cat: 'C15.R3' if cat in ('convert-from-unit', 'storage-label', 'add-units', 'sum-mix',
+        uscan.report_sinks(ctx, lambda cat: 'C15.R3' if cat in ('convert-from-unit', 'storage-label', 'add-units', 'sum-mix', 'truncating-division',
                                                                 'qstr', 'compare-units') else None, sc)
     # ---------------------------------------------------------------- R4 stage slicing / record protocol
     before = len(ctx.obs)
